@@ -1,9 +1,11 @@
 # Unit trap: per-signal trap state machine of yash-env (properties C11 and C08's trap clause).
 STATE = 'yash-env/src/trap/state.rs'
+TRAP = 'yash-env/src/trap.rs'
 ASYNC = {'rewrites': ['strip-async'], 'mut_params': ['system']}
 
 MOD_HEAD = '''    use vstd::prelude::*;
     use std::collections::hash_map::{Entry, VacantEntry};
+    use std::collections::HashMap as BTreeMap;
     use std::rc::Rc;
     use std::num::NonZero;
     use std::ffi::c_int;
@@ -15,16 +17,25 @@ UNIT = {
     'property': 'C11',
     'rlimit': 60,
     'verus_args': ['--edition=2024'],
+    'crate_attrs': ['#![feature(allocator_api)]', '#![feature(sized_hierarchy)]'],
+    # vacuity twin: every contracted fn with a precondition gets `ensures false` appended and must fail
+    'controls': 'auto',
     'items': [
-        ('@raw', 'pub mod tr {\n' + MOD_HEAD),
+        # signal numbers, conditions and the assumed std contracts over them live in a module of their own (Verus
+        # rejects a module-level `broadcast use` of an axiom that sits beside the types it mentions)
+        ('@raw', 'pub mod sg {\n' + MOD_HEAD),
         ('@raw', 'pub mod signal {\n    use vstd::prelude::*;\n    use std::num::NonZero;\n    use std::ffi::c_int;\n'),
         ('yash-env/src/signal.rs', ['type RawNumber']),
         ('yash-env/src/signal.rs', ['struct Number']),
         ('@raw', '}\n'),
+        ('yash-env/src/trap/cond.rs', ['enum Condition']),
+        ('@file', 'prelude_set.rs'),
+        ('@raw', '}\n'),
+        ('@raw', 'pub mod tr {\n' + MOD_HEAD + '    use super::sg::*;\n'),
+        ('@broadcast', ['super::sg::axiom_condition_key_model', 'super::sg::axiom_key_borrows_same']),
         ('yash-env/src/system/errno.rs', ['type RawErrno']),
         ('yash-env/src/system/errno.rs', ['struct Errno']),
         ('yash-env/src/system/signal.rs', ['enum Disposition']),
-        ('yash-env/src/trap/cond.rs', ['enum Condition']),
         ('@file', 'prelude.rs'),
         (STATE, ['enum Action']),
         (STATE, ['impl From<&Action> for Disposition']),
@@ -60,6 +71,8 @@ UNIT = {
                 # ... and nothing else is refused: with a record, the call succeeds unless the system refuses
                 'e_pre(entry) is Some && (override_ignore || !(e_pre(entry)->0.cur().action == Action::Ignore && e_pre(entry)->0.cur().origin == Origin::Inherited)) && (e_key(entry) is Signal ==> forall|d: Disposition| !old(system).refuses(e_key(entry)->Signal_0, d)) ==> r is Ok',
                 'e_pre(entry) is None && (override_ignore || e_key(entry) is Exit || old(system).installed(e_key(entry)->Signal_0) != Disposition::Ignore) && (e_key(entry) is Signal ==> forall|d: Disposition| !old(system).refuses(e_key(entry)->Signal_0, d)) ==> r is Ok',
+                # a record created by this call starts without parent state and without internal disposition
+                'e_pre(entry) is None && e_post(entry) is Some ==> e_post(entry)->0.parent() is None && e_post(entry)->0.internal() == Disposition::Default',
                 # an occupied record is never changed by a failing call
                 'r is Err && e_pre(entry) is Some ==> e_post(entry) == e_pre(entry) && all_unchanged(*old(system), *final(system))',
             ])),
@@ -114,6 +127,103 @@ UNIT = {
             'final(self).cur() == (TrapState { action: old(self).cur().action, origin: old(self).cur().origin, pending: false })',
             'r is Some ==> *r->0 == final(self).cur()',
             'final(self).parent() == old(self).parent() && final(self).internal() == old(self).internal()']}),
+        # ---- the table: TrapSet ------------------------------------------------------------------------
+        (TRAP, ['struct TrapSet'], {'drop_derives': True, 'pub_fields': True}),
+        ('@file', 'prelude_set2.rs'),
+        (STATE, ['impl GrandState', 'fn clear_parent_state'], {'ensures': [
+            'final(self).parent() is None && final(self).cur() == old(self).cur() && final(self).internal() == old(self).internal()']}),
+        # `for state in self.traps.values_mut()`: iteration over values_mut is outside Verus's subset; the contract of
+        # this three-line loop over `clear_parent_state` (verified above) is ASSUMED.
+        (TRAP, ['impl TrapSet', 'fn clear_parent_states'], {'attrs': ['#[verifier::external_body]'], 'ensures': [
+            'parents_cleared(old(self).tab(), final(self).tab())']}),
+        (TRAP, ['impl TrapSet', 'fn set_action_impl'], dict(ASYNC, ret='r',
+            requires=['tinv(old(self).tab(), *old(system))'],
+            ensures=[
+                # "KILL and STOP can never be trapped": refused before anything is touched
+                'cond == Condition::Signal(S::SIGKILL) ==> r == Err::<(), SetActionError>(SetActionError::SIGKILL) && final(self).tab() == old(self).tab() && all_unchanged(*old(system), *final(system))',
+                'cond == Condition::Signal(S::SIGSTOP) && S::SIGSTOP != S::SIGKILL ==> r == Err::<(), SetActionError>(SetActionError::SIGSTOP) && final(self).tab() == old(self).tab() && all_unchanged(*old(system), *final(system))',
+                # the table invariant of C11 holds again, whatever the outcome
+                'tinv(final(self).tab(), *final(system))',
+                # success records the action for this condition ...
+                'r is Ok ==> final(self).tab().contains_key(cond) && final(self).tab()[cond].cur() == (TrapState { action: action, origin: Origin::User(origin), pending: false })',
+                # documented: "clears all parent states remembered when entering a subshell, not only for the specified condition"
+                'cond != Condition::Signal(S::SIGKILL) && cond != Condition::Signal(S::SIGSTOP) ==> forall|d: Condition| #[trigger] final(self).tab().contains_key(d) ==> final(self).tab()[d].parent() is None',
+                # ... and every other record keeps its action, pending flag and internal disposition
+                'forall|d: Condition| d != cond ==> (#[trigger] final(self).tab().contains_key(d) <==> old(self).tab().contains_key(d)) && (old(self).tab().contains_key(d) ==> final(self).tab()[d].cur() == old(self).tab()[d].cur() && final(self).tab()[d].internal() == old(self).tab()[d].internal())',
+            ])),
+        (TRAP, ['impl TrapSet', 'fn set_internal_disposition'], dict(ASYNC, ret='r',
+            requires=['tinv(old(self).tab(), *old(system))'],
+            ensures=[
+                'tinv(final(self).tab(), *final(system))',
+                'same_but(old(self).tab(), final(self).tab(), Condition::Signal(signal))',
+                'r is Ok && final(self).tab().contains_key(Condition::Signal(signal)) ==> final(self).tab()[Condition::Signal(signal)].internal() == disposition',
+                'r is Err ==> final(self).tab() =~= old(self).tab() && all_unchanged(*old(system), *final(system))',
+                # the user's trap for that signal is not touched
+                'actions_kept(old(self).tab(), final(self).tab())',
+            ])),
+        (TRAP, ['impl TrapSet', 'fn enable_internal_disposition_for_sigchld'], dict(ASYNC, ret='r',
+            requires=['tinv(old(self).tab(), *old(system))'],
+            ensures=[
+                # shell-internal handler changes keep the table invariant and never touch a user's trap action
+                'tinv(final(self).tab(), *final(system))',
+                'actions_kept(old(self).tab(), final(self).tab())',
+                'r is Ok && final(self).tab().contains_key(Condition::Signal(S::SIGCHLD)) ==> final(self).tab()[Condition::Signal(S::SIGCHLD)].internal() == Disposition::Catch',
+            ])),
+        (TRAP, ['impl TrapSet', 'fn enable_internal_dispositions_for_terminators'], dict(ASYNC, ret='r',
+            requires=['tinv(old(self).tab(), *old(system))'],
+            ensures=[
+                # shell-internal handler changes keep the table invariant and never touch a user's trap action
+                'tinv(final(self).tab(), *final(system))',
+                'actions_kept(old(self).tab(), final(self).tab())',
+                'r is Ok && S::SIGINT != S::SIGTERM && S::SIGINT != S::SIGQUIT && S::SIGTERM != S::SIGQUIT ==> want_internal(final(self).tab(), S::SIGINT, Disposition::Catch) && want_internal(final(self).tab(), S::SIGTERM, Disposition::Ignore) && want_internal(final(self).tab(), S::SIGQUIT, Disposition::Ignore)',
+            ])),
+        (TRAP, ['impl TrapSet', 'fn enable_internal_dispositions_for_stoppers'], dict(ASYNC, ret='r',
+            requires=['tinv(old(self).tab(), *old(system))'],
+            ensures=[
+                # shell-internal handler changes keep the table invariant and never touch a user's trap action
+                'tinv(final(self).tab(), *final(system))',
+                'actions_kept(old(self).tab(), final(self).tab())',
+                'r is Ok && S::SIGTSTP != S::SIGTTIN && S::SIGTSTP != S::SIGTTOU && S::SIGTTIN != S::SIGTTOU ==> want_internal(final(self).tab(), S::SIGTSTP, Disposition::Ignore) && want_internal(final(self).tab(), S::SIGTTIN, Disposition::Ignore) && want_internal(final(self).tab(), S::SIGTTOU, Disposition::Ignore)',
+            ])),
+        (TRAP, ['impl TrapSet', 'fn disable_internal_dispositions_for_terminators'], dict(ASYNC, ret='r',
+            requires=['tinv(old(self).tab(), *old(system))'],
+            ensures=[
+                # shell-internal handler changes keep the table invariant and never touch a user's trap action
+                'tinv(final(self).tab(), *final(system))',
+                'actions_kept(old(self).tab(), final(self).tab())',
+                'r is Ok && S::SIGINT != S::SIGTERM && S::SIGINT != S::SIGQUIT && S::SIGTERM != S::SIGQUIT ==> want_internal(final(self).tab(), S::SIGINT, Disposition::Default) && want_internal(final(self).tab(), S::SIGTERM, Disposition::Default) && want_internal(final(self).tab(), S::SIGQUIT, Disposition::Default)',
+            ])),
+        (TRAP, ['impl TrapSet', 'fn disable_internal_dispositions_for_stoppers'], dict(ASYNC, ret='r',
+            requires=['tinv(old(self).tab(), *old(system))'],
+            ensures=[
+                # shell-internal handler changes keep the table invariant and never touch a user's trap action
+                'tinv(final(self).tab(), *final(system))',
+                'actions_kept(old(self).tab(), final(self).tab())',
+                'r is Ok && S::SIGTSTP != S::SIGTTIN && S::SIGTSTP != S::SIGTTOU && S::SIGTTIN != S::SIGTTOU ==> want_internal(final(self).tab(), S::SIGTSTP, Disposition::Default) && want_internal(final(self).tab(), S::SIGTTIN, Disposition::Default) && want_internal(final(self).tab(), S::SIGTTOU, Disposition::Default)',
+            ])),
+        (TRAP, ['impl TrapSet', 'fn disable_internal_dispositions'], dict(ASYNC, ret='r',
+            requires=['tinv(old(self).tab(), *old(system))'],
+            ensures=[
+                # shell-internal handler changes keep the table invariant and never touch a user's trap action
+                'tinv(final(self).tab(), *final(system))',
+                'actions_kept(old(self).tab(), final(self).tab())',
+            ])),
+        (TRAP, ['impl TrapSet', 'fn catch_signal'], {'ensures': [
+            'same_but(old(self).tab(), final(self).tab(), Condition::Signal(signal))',
+            'final(self).tab().contains_key(Condition::Signal(signal)) <==> old(self).tab().contains_key(Condition::Signal(signal))',
+            'old(self).tab().contains_key(Condition::Signal(signal)) ==> ({ let a = old(self).tab()[Condition::Signal(signal)]; let b = final(self).tab()[Condition::Signal(signal)]; '
+            'b.cur() == (TrapState { action: a.cur().action, origin: a.cur().origin, pending: true }) && b.parent() == a.parent() && b.internal() == a.internal() })',
+        ]}),
+        (TRAP, ['impl TrapSet', 'fn take_signal_if_caught'], {'ret': 'r', 'ensures': [
+            # "each delivery of a trapped signal makes its action run exactly once": the flag of THIS signal decides and is cleared
+            'r is Some <==> old(self).tab().contains_key(Condition::Signal(signal)) && old(self).tab()[Condition::Signal(signal)].cur().pending',
+            'same_but(old(self).tab(), final(self).tab(), Condition::Signal(signal))',
+            'final(self).tab().contains_key(Condition::Signal(signal)) <==> old(self).tab().contains_key(Condition::Signal(signal))',
+            'old(self).tab().contains_key(Condition::Signal(signal)) ==> ({ let a = old(self).tab()[Condition::Signal(signal)]; let b = final(self).tab()[Condition::Signal(signal)]; '
+            'b.cur() == (TrapState { action: a.cur().action, origin: a.cur().origin, pending: false }) && b.parent() == a.parent() && b.internal() == a.internal() })',
+            'r is Some ==> *r->0 == final(self).tab()[Condition::Signal(signal)].cur()',
+            ],
+            'closures': {0: {'rewrite': 'and-then-to-match'}}}),
         ('@raw', '}\n'),
     ],
 }
